@@ -22,6 +22,23 @@ add("C02", "exhaustive small-scope enumeration x 7 solver configurations against
     "Trusted: REF and its computation of 'within limits' (largest type size, node count of the dependency graph).",
     "DESIGN.md §4 C02")
 
+add("C03", "exhaustive small-scope enumeration of programs x existential goals; SLG solve_multiple driven answer by answer, checked against the reference semantics",
+    "Every goal with existential variables on every program of the C01 fragment (and the growing families) is enumerated with the real solve_multiple, twice on the same solver: every definite answer must have no false ground instance, no answer may repeat, the `next` flag and return value must match what happens next, and an enumeration that ends by itself with only definite answers must cover every true witness REF finds.",
+    "Trusted: REF; cap of 24 answers per enumeration (reported).",
+    "DESIGN.md §4 C03")
+add("C04", "exhaustive small-scope enumeration; differential oracle between the two real solvers",
+    "Every (program, goal) of the C01 corpus and of five text-level families (associated types, auto traits, built-in traits, lifetimes, custom clauses) is solved by a fresh SLG and a fresh recursive solver; None-vs-Unique, unequal Unique substitutions and a Unique that is not an instance of the other's Definite guidance are violations.",
+    "No reference semantics involved; lifetime constraints not compared.",
+    "DESIGN.md §4 C04")
+add("C09", "exhaustive small-scope enumeration x 6 configurations with a deterministic work budget (hook H1) and a wall-clock watchdog",
+    "Every solve / solve_multiple call over the reduced C01 corpus and the growing families must return within a tick budget several times the largest count observed on returning calls, without panicking (the recursive solver's overflow-depth panic is allowed only where the search is that deep).",
+    "Termination is decided in bounded form: 'returns within N ticks'. The budget and the observed maximum are in the evidence.",
+    "DESIGN.md §4 C09")
+add("C28", "exhaustive small-scope enumeration with a structural well-formedness monitor on every returned solution",
+    "Every solution returned by either solver (and every enumerated SLG answer) over the reduced C01 corpus plus goals with lifetime/const unknowns and nested forall is checked: one entry per query variable, matching kinds, bound variables only at the solution's own binder and in range, no universe the query cannot name, no inference variables, and applying it to the query does not panic.",
+    "The monitor reads chalk's values through the public visitor API.",
+    "DESIGN.md §4 C28")
+
 NOT_YET = "check not built yet in this round (planned: bounded-exhaustive exploration, see DESIGN.md §4)"
 
 ALL = ["C%02d" % i for i in range(1, 30)]
